@@ -1,6 +1,7 @@
 //! libFuzzer target for C37: bytes -> (flavour, domain, role, cursor selector, Lua text); same oracle as the
 //! proptest check (`harness/src/oracle/desc.rs`, included by path).  A violation aborts with the signature in the
-//! panic message; re-judge the saved input with `./check C37 --replay` after converting it (see fuzz/README.md).
+//! panic message.  Campaign: `fuzz/run.sh fuzz_desc 600`.  The build has debug assertions on: re-judge a crash on the
+//! release harness (put the decoded text into a C37 replay file, `./check C37 --replay`) before reporting it.
 #![no_main]
 use arbitrary::Unstructured;
 use emmylua_parser::{LuaAstNode, LuaDocDescription, LuaParser, ParserConfig};
